@@ -311,12 +311,25 @@ pub fn cli_main(harness: &'static str, entries: Vec<Entry>) -> ! {
         }
         "replay" => cmd_replay(&entries, &args),
         "minimize" => cmd_minimize(&entries, &args),
+        "shrink" => {
+            // Prints the shrink candidates of a replay file's scenario (used by the driver to
+            // minimise violations that only reproduce under Miri).
+            let rf = load_replay(&args);
+            let e = find(&entries, &rf.property, &rf.mode);
+            let limit = arg_u64(&args, "--limit", 64) as usize;
+            let mut candidates = e.family.shrink_json(&rf.scenario);
+            candidates.truncate(limit);
+            let sizes: Vec<usize> = candidates.iter().map(|c| e.family.size_json(c)).collect();
+            emit(&json!({"candidates": candidates, "sizes": sizes,
+                "size": e.family.size_json(&rf.scenario)}));
+            0
+        }
         _ => {
             eprintln!(
                 "usage: {harness} list | batch --prop P --mode M --seed S --start I --count N \
                  [--progress] [--samples K] [--audit K] [--timeout-s T] [--max-violations V] | \
                  gen --prop P --mode M --seed S --index I | replay (--file F | --json J) [--quiet] | \
-                 minimize --file F --out G [--budget N]"
+                 minimize --file F --out G [--budget N] | shrink --file F [--limit N]"
             );
             2
         }
